@@ -266,6 +266,81 @@ fn add<V: Full>(prop: &mut Property, ctx: &Ctx) {
     }
 }
 
+/// tokens whose footer was altered on the wire into bytes that decode to the same typed value: they fail
+/// authentication like any other altered footer, so the payload decoder and the validator must stay silent
+fn value_preserving_footer<V: Full>(prop: &mut Property) {
+    use crate::payload::TrimFooter;
+    let name = V::NAME;
+    let variants: [&[u8]; 4] = [b" kid-1", b"kid-1 ", b"  kid-1  ", b" "];
+    prop.subs.push(
+        Sub::new(
+            format!("{name}/failing-typed-footer"),
+            variants.len() as u64 * 2,
+            "{local, public} x 4 wire footers that a typed footer decodes to the value that was sealed (surrounding spaces dropped; a lone space for the empty footer): the token fails authentication, so neither the payload decoder nor the validator runs and the error is a cryptographic / format error",
+            move |idx, describe| {
+                let local = idx % 2 == 0;
+                let var = variants[(idx / 2) as usize];
+                let sealed_footer: &[u8] = if var == b" " { b"" } else { b"kid-1" };
+                let mut o = Outcome::new();
+                if describe {
+                    o.sample = Some(json!({"backend": name, "local": local, "wire_footer": String::from_utf8_lossy(var)}));
+                }
+                let ks = keys::keyset::<V>(false, 0);
+                let (lkb, skb) = (&ks.locals[2].bytes, &ks.secrets[0].bytes);
+                let m = msg_for(9, true);
+                let tok = if local { ops::enc::<V>(&keys::local::<V>(lkb), &m, Some(sealed_footer), b"", &Nonce::Lib) } else { ops::sign::<V>(&keys::secret::<V>(skb), &m, Some(sealed_footer), b"", &Nonce::Lib) };
+                let Ok(tok) = tok else {
+                    o.violate_env(format!("{name}/typed-footer/seal"), "cannot seal the base token".to_string(), json!({}));
+                    return o;
+                };
+                let (h, body, _) = ops::split_token(&tok).unwrap();
+                let pkb = keys::key_bytes(&keys::secret::<V>(skb).public_key());
+                let run = |token: &str| {
+                    env_reset();
+                    env_set(|e| e.decode_requires_prefix = Some(b"OK".to_vec()));
+                    let r = subject(|| -> Result<Vec<u8>, PasetoError> {
+                        if local {
+                            let t: SealedToken<V, Local, Rec, TrimFooter> = token.parse()?;
+                            Ok(t.decrypt_with_aad(&keys::local::<V>(lkb), b"", &RecValidator)?.claims.0)
+                        } else {
+                            let t: SealedToken<V, Public, Rec, TrimFooter> = token.parse()?;
+                            Ok(t.verify_with_aad(&keys::public::<V>(&pkb), b"", &RecValidator)?.claims.0)
+                        }
+                    });
+                    let ev = env_events();
+                    env_reset();
+                    (r, ev)
+                };
+                // witness: the untouched token is released through this footer type
+                match run(&tok) {
+                    (Ok(Ok(c)), _) if c == m => o.class("good-token-released"),
+                    (other, _) => {
+                        o.violate(format!("{name}/typed-footer/base"), format!("the untouched token is not released with a trimming footer type: {:?}", other.map(|r| r.map(|c| c.len()).map_err(|e| err_kind(&e)))), json!({"token": tok}));
+                        return o;
+                    }
+                }
+                let mutated = ops::join_token(&h, &body, Some(var));
+                match run(&mutated) {
+                    (Err(p), _) => o.violate(format!("{name}/typed-footer/panic"), p, json!({"token": mutated})),
+                    (Ok(r), ev) => {
+                        let called: Vec<&Event> = ev.iter().filter(|e| matches!(e, Event::PayloadDecode(_) | Event::Validate(_))).collect();
+                        if !called.is_empty() {
+                            o.violate(format!("{name}/typed-footer/callbacks"), format!("the footer bytes were altered on the wire ({:?}), yet the caller's payload decoder / validator ran: {called:?}", String::from_utf8_lossy(var)), json!({"token": mutated, "result_ok": r.is_ok()}));
+                        } else {
+                            match r {
+                                Err(e) if matches!(err_kind(&e), "CryptoError" | "InvalidToken") => o.class("silent-crypto-error"),
+                                other => o.violate(format!("{name}/typed-footer/result"), format!("altered footer: result {:?}", other.map(|c| c.len()).map_err(|e| err_kind(&e))), json!({"token": mutated})),
+                            }
+                        }
+                    }
+                }
+                o
+            },
+        )
+        .witness(&["good-token-released", "silent-crypto-error"]),
+    );
+}
+
 pub fn build(ctx: &Ctx) -> Property {
     let mut p = Property::new("C12", "model_checking");
     add::<backends::V1>(&mut p, ctx);
@@ -274,6 +349,12 @@ pub fn build(ctx: &Ctx) -> Property {
     add::<backends::V3L>(&mut p, ctx);
     add::<backends::V4>(&mut p, ctx);
     add::<backends::V4S>(&mut p, ctx);
+    value_preserving_footer::<backends::V1>(&mut p);
+    value_preserving_footer::<backends::V2>(&mut p);
+    value_preserving_footer::<backends::V3>(&mut p);
+    value_preserving_footer::<backends::V3L>(&mut p);
+    value_preserving_footer::<backends::V4>(&mut p);
+    value_preserving_footer::<backends::V4S>(&mut p);
     p.states_counter = Some("states");
     p.transitions_counter = Some("transitions");
     p.assume("the footer decoder runs at parse time by design (the value is only reachable through unverified_footer); only the payload decoder and the validator are forbidden before authentication");
